@@ -42,6 +42,8 @@ const S_SKIP_LONG: &[u16] = &[M_SKIP, M_SINGLE | M_LEN, M_SINGLE, M_SINGLE | M_C
 const S_LOOPS: &[u16] = &[M_LOOPS];
 const S_END: &[u16] = &[M_SINGLE | M_CHUNK, M_SINGLE | M_CHUNK | M_LEN, M_SINGLE | M_LEN];
 const S_ADAPT: &[u16] = &[M_ADAPT, M_ADAPT | M_LEN];
+/// histories in which possibly nothing at all is pulled
+const S_IDLE: &[u16] = &[M_LEN | M_SINGLE, M_LEN | M_CHUNK];
 
 const E_ALL: u8 = 0b111;
 const E_DROP: u8 = 0b001;
@@ -63,6 +65,10 @@ fn wit_skip(m: &Model) {
 }
 fn wit_loops(m: &Model) {
     kani::cover!(m.pos == m.len && m.len > 1, "W: loop consumed the rest");
+}
+fn wit_idle(m: &Model) {
+    kani::cover!(m.pos == 0 && m.len > 0, "W: nothing was pulled");
+    kani::cover!(m.pos == 1, "W: exactly one element was pulled");
 }
 fn wit_some(m: &Model) {
     kani::cover!(m.pos > 0, "W: something was delivered");
